@@ -28,10 +28,12 @@ JOBS = [
   for part, nm in ((1, "work_cp"), (2, "intervals"), (3, "edges_create_end"), (4, "edges_cont"))
 ] + [
   Job("c18.free_dag.bounded", TU, "h_free_dag", kind="bounded", enforce=["dr_free_dag/free_dag_frame_contract"],
-      replace=EXIT, cbmc=["--unwind", "10", "--unwinding-assertions"], defines=["-DACC_N=4"],
-      fuc=["dr_free_dag", "dr_dag_node_free"], timeout=200),
+      replace=EXIT, replace_calls=["malloc:verif_malloc"], cbmc=["--unwind", "12", "--unwinding-assertions"],
+      fuc=["dr_free_dag", "dr_dag_node_free", "dr_dag_node_stack_push_children"], timeout=100,
+      note="bounded: one concrete DAG of 10 nodes containing every node kind, summaries arbitrary"),
   Job("c18.prune.bounded", TU, "h_prune", kind="bounded", enforce=["dr_prune_nodes_norec/prune_frame_contract"],
-      replace=EXIT, cbmc=["--unwind", "24", "--unwinding-assertions"],
-      fuc=["dr_prune_nodes_norec", "dr_collapse_subgraph", "dr_free_dag"], timeout=200),
+      replace=EXIT + ["dr_collapse_subgraph/collapse_any_contract"], cbmc=["--unwind", "24", "--unwinding-assertions"],
+      fuc=["dr_prune_nodes_norec"], timeout=100,
+      note="bounded: one concrete DAG of 10 nodes containing every node kind; summaries, worker sets and budget (-2..12) arbitrary"),
 ]
 META = {"level": "other", "level_text": "", "level_note": "", "trusted_base": [], "explanation": "", "assumptions": []}
